@@ -83,10 +83,12 @@ def replay_arma2psd(chk, st, cplx):
                 continue
             bad = cmp_vec(res, exp, tol=1e-8, name='psd')
             if bad and nfft in big and np.shape(res) == exp.shape and np.all(np.isfinite(res)):
-                # a long grid comes close to the poles: |A|^2 is computed with a rounding error of a few thousand eps times
-                # (sum|a_k|)^2, which the division amplifies bin by bin
-                S2 = float(np.sum(np.abs(np.concatenate(([1.0], np.asarray(a, dtype=complex))))) ** 2) if a is not None else 1.0
-                allowed = np.abs(exp) * (1e-8 + 1e-12 * S2 / np.abs(d))
+                # a long grid comes close to the poles (and zeros): |A|^2 and |B|^2 are computed with an absolute rounding error
+                # of a few thousand eps times (sum|a_k|)^2 resp. (sum|b_k|)^2, which the division amplifies bin by bin:
+                # |d psd| <= g (d|B|^2 + |B|^2/|A|^2 d|A|^2) / |A|^2
+                SA2 = float(np.sum(np.abs(np.concatenate(([1.0], np.asarray(a, dtype=complex))))) ** 2) if a is not None else 0.0
+                SB2 = float(np.sum(np.abs(np.concatenate(([1.0], np.asarray(b, dtype=complex))))) ** 2) if b is not None else 0.0
+                allowed = 1e-8 * np.abs(exp) + 1e-12 * (g * SB2 + np.abs(exp) * SA2) / np.abs(d)
                 if np.all(np.abs(np.asarray(res) - exp) <= allowed):
                     bad = None
             if bad:
